@@ -7,6 +7,7 @@ import (
 	"time"
 
 	"github.com/glebziz/fs_db/verifh/conc"
+	"github.com/glebziz/fs_db/verifh/seq"
 	"github.com/glebziz/fs_db/verifh/hk"
 )
 
@@ -35,6 +36,8 @@ func Replay(r *hk.Replay) int {
 	switch r.Engine {
 	case "conc":
 		return conc.ReplayFile(r)
+	case "seq":
+		return seq.ReplayFile(r)
 	}
 	if f := replayers[r.Engine]; f != nil {
 		return f(r)
